@@ -32,7 +32,7 @@ func init() {
 			"cyclic Go values are not generated; allocation size requested by length prefixes is recorded but is not a verdict",
 			"a per-case watchdog of 20 s (confirmed alone with 60 s) decides 'fails to terminate'",
 		},
-		quick: 520000, thorough: 8000000, minQuick: 100000, minThorough: 2000000,
+		quick: 640000, thorough: 8000000, minQuick: 100000, minThorough: 2000000,
 	}})
 }
 
@@ -115,6 +115,15 @@ func c05SelfSlice() []interface{} {
 	return s
 }
 
+// methods promoted from an embedded pointer or interface that is nil: calling them panics inside Go's own wrapper
+type c05NilPtrMeth struct {
+	*c05Meth
+	X int
+}
+type c05NilIfaceMeth struct {
+	fmt.Stringer
+	X int
+}
 type c05Str string
 type c05IntSlice []int
 type c05StrMap map[string]string
@@ -190,6 +199,9 @@ func c05Values() []namedVal {
 		{"ptr-and-hidden-stringers", c05Lease{Name: "l", Owner: &c05Plain{Name: "o"}, ttl: 90 * time.Second, at: time.Unix(1700000000, 0).UTC(), m: c05Meth{V: 1}}},
 		{"list-ptr-hidden-stringers", []*c05Lease{{Name: "a", ttl: time.Second}, nil, {Name: "b", Owner: &c05Plain{}}}}, {"map-ptr-hidden-stringers", map[string]*c05Lease{"k": {Name: "a", ttl: time.Second, Owner: &c05Plain{}}}},
 		{"cyclic-list", c05Ring()}, {"cyclic-in-list", []interface{}{c05Ring()}}, {"self-map", c05SelfMap()}, {"self-slice", c05SelfSlice()}, {"cyclic-in-map", map[string]interface{}{"p": c05Ring()}},
+		{"nil-embedded-ptr-methods", c05NilPtrMeth{X: 1}}, {"nil-embedded-iface-methods", c05NilIfaceMeth{X: 2}}, {"ptr-nil-embedded-iface", &c05NilIfaceMeth{X: 3}},
+		{"uint16", uint16(9)}, {"hugefloat19", 1e19}, {"str-nan", "nan"}, {"str-inf", "-Infinity"},
+		{"re-slash", "/"}, {"re-mods-unclosed", "/sim"}, {"re-flag-only", "/i"}, {"re-full", "/^h.l+o$/ims"}, {"re-broken", "/(/u"}, {"fmt-verbs", "%d %s %v %[3]d %*d %!"},
 		{"intbig-1", math.MaxInt64 - 1}, {"intmin+1", math.MinInt64 + 1},
 		{"chan", ch}, {"func", func() int { return 1 }}, {"deep", deep}, {"err", fmt.Errorf("an error value")}, {"struct-empty", struct{}{}},
 	}
@@ -216,7 +228,7 @@ var c05Constructs = []string{
 
 var c05PairConstructs = []string{
 	"{{ v in w }}", "{{ v not in w }}", "{{ w[v] }}", "{{ v == w }}{{ v != w }}", "{{ v < w }}{{ v >= w }}", "{{ v ~ w }}", "{{ v + w }}{{ v - w }}{{ v * w }}", "{{ v / w }}{{ v % w }}", "{{ merge(v, w)|length }}", "{{ v|merge(w)|length }}",
-	"{{ v|default(w) }}", "{{ v|join(w) }}", "{{ v|split(w)|length }}", "{{ v|replace(w) }}", "{{ v|slice(w, w) }}", "{{ v|date(w) }}", "{{ v|number_format(w, w, w) }}", "{{ v|round(w) }}", "{{ max(v, w) }}{{ min(w, v) }}", "{{ range(v, w)|length }}",
+	"{{ v|default(w) }}", "{{ v|join(w) }}", "{{ v|split(w)|length }}", "{{ v|replace(w) }}", "{{ v|slice(w, w) }}", "{{ v|date(w) }}", "{{ v|number_format(w, w, w) }}", "{{ v|round(w) }}", "{{ max(v, w) }}{{ min(w, v) }}", "{{ range(v, w)|length }}", "{{ random(v, w) }}{{ random(v) }}",
 	"{{ v is same as(w) }}", "{{ v is divisible by(w) }}", "{{ cycle(v, w) }}", "{% include v with w %}", "{{ v|format(w) }}", "{{ v matches w }}", "{{ v starts with w }}{{ v ends with w }}", "{{ v and w }}{{ v or w }}{{ v ? w : v }}",
 	"{% for k, x in v %}{{ x in w }}{% endfor %}", "{% if v in w %}y{% endif %}{% for x in w %}{% if x in v %}z{% endif %}{% endfor %}",
 }
@@ -491,7 +503,7 @@ func (p *c05) Run(rec *core.Recorder, seed uint64, idx int, tier string) {
 			src = "{{ v|" + c05Filters[k/len(c05ArgSets)] + c05ArgSets[k%len(c05ArgSets)] + " }}"
 		}
 		w := vals[(idx*7+3)%len(vals)]
-		if strings.Contains(src, "range(") || strings.Contains(src, "random(") {
+		if strings.Contains(src, "range(") {
 			// asking for ~2^63 (or infinitely many) elements is resource exhaustion by request, not a hang
 			if (hugeNumber(v.V) || hugeNumber(w.V)) && !shortRange(src, v.V, w.V) {
 				rec.Count("skipped-resource-request", 1)
